@@ -216,3 +216,8 @@ func (lsm *LSM) VerifKeySources(internalKey []byte) []VerifSource {
 	}
 	return out
 }
+
+// VerifPriorities returns the compaction candidates the picker currently sees.
+func (lsm *LSM) VerifPriorities() []compact.Priority {
+	return lsm.levels.pickCompactLevels()
+}
